@@ -85,6 +85,7 @@ func LoadEngine(repoDir string, patterns []string, overlay map[string][]byte) (*
 	}
 	e.initPkgs["io"] = true
 	e.initPkgs["bytes"] = true
+	e.initPkgs["io/ioutil"] = true
 	e.initPkgs["net"] = false
 	registerIntrinsics(e)
 	e.LoadSeconds = time.Since(t0).Seconds()
